@@ -11,7 +11,13 @@
 //	ROLE  := (T CLS HOST LAUNCH CFG TR KILL)       a direct-control task of class c<CLS> pinned to host h<HOST> (9 = no such host)
 //	       | (H CLS HOST W AFTER LAUNCH HOOK)      a basic task used as DESTROY (AFTER=1: after_DESTROY) hook at weight W
 //	       | (P)                                   a call started at before_CONFIGURE and awaited at a trigger that never comes
-//	LAUNCH := ok|die|slow   CFG := ok|stay|err   TR := ok|<EV>:stay|<EV>:err   KILL := ok|failed|delay|refuse   HOOK := ok|fail
+//	LAUNCH := ok|die|slow|nohost   CFG := ok|stay|err   TR := ok|<EV>:stay|<EV>:err   KILL := ok|failed|delay|refuse   HOOK := ok|fail
+//	                                               LAUNCH nohost: while the environment is being created the master's OFFER for the role's host carries
+//	                                               NO HOSTNAME (mesos.Offer.Hostname is a plain string: it arrives empty; ids, attributes, resources as
+//	                                               ever). The core places on machine_id and resources, so every task of the environment placed on that
+//	                                               host is launched and comes up like any other — but its task record lacks the hostname and it cannot
+//	                                               be locked (Task.isLocked): acquireTasks declares the deployment failed in its own tail, after
+//	                                               EVERYTHING was launched. Not with REUSE; the creation is the only one of its round.
 //	                                               KILL refuse: the master answers the FIRST KILL call that names a task of the class with an error
 //	                                               (HTTP 503, a transient scheduler-API fault): the call fails at the core, the task keeps running, no
 //	                                               KILL is counted for it. (mesos-go drops the subscription after any failed call: the KILL calls that
@@ -191,6 +197,9 @@ func Parse(input string) (*Scenario, error) {
 				return nil, fmt.Errorf("bad role %s", r)
 			}
 		}
+		if env.NoHostname() && sc.Reuse {
+			return nil, fmt.Errorf("env %s: an offer without hostname is not scripted together with reuseUnlockedTasks", e)
+		}
 		sc.Envs = append(sc.Envs, env)
 	}
 	created := map[int]bool{}
@@ -302,12 +311,35 @@ func Parse(input string) (*Scenario, error) {
 			// the environment in creation is recognised as THE id the harness has not been told yet
 			return nil, fmt.Errorf("a round with a newd has no other creation")
 		}
+		if nNew > 1 {
+			for _, op := range ops {
+				if (op.Kind == "new" || op.Kind == "newd") && sc.Envs[op.K].NoHostname() {
+					// which creation an offer goes to is the core's business: the offers without hostname are the ones of THIS creation only if it is alone
+					return nil, fmt.Errorf("the creation of an environment placed on an offer without hostname is the only creation of its round")
+				}
+			}
+		}
 		sc.Rounds = append(sc.Rounds, ops)
 	}
 	return sc, nil
 }
 
 var hostDet = map[int]string{1: "ITS", 2: "ITS", 3: "TPC", 4: "TST"}
+
+// NoHostnameHosts: the hosts whose OFFER carries no hostname while this environment is created (LAUNCH nohost of a role placed there).
+func (e Env) NoHostnameHosts() []int {
+	var out []int
+	seen := map[int]bool{}
+	for _, ro := range e.Roles {
+		if ro.Kind != "P" && ro.Launch == "nohost" && validHost(ro.Host) && !seen[ro.Host] {
+			seen[ro.Host] = true
+			out = append(out, ro.Host)
+		}
+	}
+	return out
+}
+
+func (e Env) NoHostname() bool { return len(e.NoHostnameHosts()) > 0 }
 
 func clsName(c int) string { return fmt.Sprintf("c%d", c) }
 
@@ -689,6 +721,12 @@ func (r *runner) do(op Op) (*sx.Node, error) {
 		type reply struct {
 			rep *pb.NewEnvironmentReply
 			err error
+		}
+		// LAUNCH nohost: the offers for these hosts carry no hostname from now until the creation has returned (it is the only
+		// creation of its round; the core asks for offers — REVIVE — inside acquireTasks)
+		for _, h := range e.NoHostnameHosts() {
+			r.w.Master.BlankOfferHostname(fmt.Sprintf("h%d", h), true)
+			defer r.w.Master.BlankOfferHostname(fmt.Sprintf("h%d", h), false)
 		}
 		ch := make(chan reply, 1)
 		go func() {
